@@ -80,13 +80,13 @@ func setupC13(x *Ctx) {
 
 	rig := newWsRig(x, uutClient, func(r *wsRig) {
 		if failR > 0 {
-			r.uc.FailReadAt = r.baseR + failR
+			r.uc.FailAt(r.baseR+failR, 0, 0)
 		}
 		if failW > 0 {
-			r.uc.FailWriteAt = r.baseW + failW
+			r.uc.FailAt(0, r.baseW+failW, 0)
 		}
 		if failWO > 0 {
-			r.uc.FailWriteOnlyAt = r.baseW + failWO
+			r.uc.FailAt(0, 0, r.baseW+failWO)
 		}
 		r.wc.InitDataProcessing(&wsRecorder{x: x, name: "U"})
 		x.Go("U:writer", func() {
@@ -205,7 +205,8 @@ func setupC13(x *Ctx) {
 					return
 				}
 			}
-			x.SetSample(map[string]any{"variant": variant, "reads": rig.uc.NRead - rig.baseR, "writes": rig.uc.NWrite - rig.baseW})
+			nr, nw, _ := rig.uc.Counts()
+			x.SetSample(map[string]any{"variant": variant, "reads": nr - rig.baseR, "writes": nw - rig.baseW})
 			x.S.Stop("done")
 			return
 		case "local":
@@ -289,11 +290,12 @@ func setupC13(x *Ctx) {
 			x.Violate("pump-not-terminated", cause, fmt.Sprintf("%s: 75 simulated s after the end these ws goroutines still run: %v", variant, alive))
 			return
 		}
-		if rig.uc.CloseCalls == 0 {
+		nr, nw, ncl := rig.uc.Counts()
+		if ncl == 0 {
 			x.Violate("socket-not-closed", cause, fmt.Sprintf("%s: Close() was never called on the underlying network connection", variant))
 			return
 		}
-		x.SetSample(map[string]any{"variant": variant, "cause": cause, "error_reports": nErr, "reads": rig.uc.NRead - rig.baseR, "writes": rig.uc.NWrite - rig.baseW})
+		x.SetSample(map[string]any{"variant": variant, "cause": cause, "error_reports": nErr, "reads": nr - rig.baseR, "writes": nw - rig.baseW})
 		x.S.Stop("done")
 	})
 }
